@@ -2,6 +2,8 @@ package sim
 
 import (
 	"time"
+
+	kcp "github.com/xtaci/kcp-go/v5"
 )
 
 // IOMode describes how a writer or reader actor sizes its calls.
@@ -238,6 +240,22 @@ func (ep *Endpoint) CheckRead(buf []byte, n int) {
 		// their shared header bytes, passes KCP's checks and enters the stream
 		if fl.Read+int64(n) > fl.Offered || flowCheck(fl.Key, fl.Read, buf[:n]) >= 0 {
 			s.Fail("C01", "stream", "corrupted-after-recovery-under-wrong-fec-ratio", "%s: Read of %d bytes at stream offset %d returned bytes that were never written; this endpoint had counted a FEC recovery while decoding under a ratio different from its peer's", ep.Name, n, fl.Read)
+			return
+		}
+	}
+	if ep.StaleFECRisk && kcp.DefaultSnmp.Copy().FECRecovered > ep.FECRecoveredAtStart {
+		// recorded finding (known_findings.txt): after a reconnect from the same
+		// address, FEC shards left over from the old conversation combine with
+		// shards of the new one; the reconstruction can carry the new conversation
+		// id and old payload
+		if fl.Read+int64(n) > fl.Offered || flowCheck(fl.Key, fl.Read, buf[:n]) >= 0 {
+			if ep.W.ReportCrossConv {
+				s.Fail("C01", "stream", "corrupted-after-fec-recovery-across-conversations", "%s: Read of %d bytes at stream offset %d returned bytes that were never written in this conversation; the address pair hosted an earlier conversation and a FEC recovery was counted since the reconnect", ep.Name, n, fl.Read)
+				return
+			}
+			s.Stats.Probe("known-finding-met:fec-recovery-across-conversations")
+			fl.NoCheck = true // the stream of this conversation is lost to the finding
+			fl.Read += int64(n)
 			return
 		}
 	}
